@@ -65,7 +65,8 @@ def check_matches(case, idx, pos, rots, groups, stats):
 def oracle(case, stats):
     atol, hints, seeds = case["atol"], case["hints"], case["seeds"]
     try:
-        groups = ref_match.find_all(case["cell"], case["spos"], case["sels"], case["ppos"], case["pels"], atol)
+        groups = ref_match.find_all(case["cell"], case["spos"], case["sels"], case["ppos"], case["pels"], atol,
+                                    in_thr=ref_match.in_threshold(case["ppos"], hints, atol))
     except ref_match.TooAmbiguous:
         stats.count("skipped:reference-budget")
         return
